@@ -126,3 +126,12 @@ class MemStream:
 
     def __exit__(self, *a):
         return False
+
+
+def narrow(x, v, lo, hi):
+    """v with the interval [lo, hi]; the bound is added as an assumption (a
+    no-op cut when it is already implied by the path condition)."""
+    if isinstance(v, core.SInt):
+        x.assume(And(v >= lo, v <= hi))
+        return core.mkint(v.e, max(v.lo, lo), min(v.hi, hi))
+    return v
